@@ -66,12 +66,13 @@ type State struct {
 	Heaps map[string]*Term
 	Cells map[*Cell]*Term
 	// Go-side knowledge that survives only while all merged states agree
-	Clos   map[*Term]*Closure // func-value term -> closure
-	Snap     *State          // snapshot taken by a `callsite ... snapshot` clause
-	CellAddr map[*Cell]*Addr // pointer-typed cells currently holding a Go-side (interior) address
-	Defers []*DeferRec
-	Dead   bool
-	Epoch  int // id of the last havoc-everything event (0 = none): names never touched since read as fresh per epoch
+	Clos     map[*Term]*Closure // func-value term -> closure
+	Snap     *State             // snapshot taken by a `callsite ... snapshot` clause
+	CellAddr map[*Cell]*Addr    // pointer-typed cells currently holding a Go-side (interior) address
+	Defers   []*DeferRec
+	Dead     bool
+	Stable   []stableRec // heap cells only this function's own stores can change (see ownedCell)
+	Epoch    int         // id of the last havoc-everything event (0 = none): names never touched since read as fresh per epoch
 }
 
 type DeferRec struct {
@@ -94,6 +95,7 @@ func (s *State) Clone() *State {
 		n.Clos[k] = v
 	}
 	n.Defers = append([]*DeferRec{}, s.Defers...)
+	n.Stable = append([]stableRec{}, s.Stable...)
 	n.Snap = s.Snap
 	if len(s.CellAddr) > 0 {
 		n.CellAddr = make(map[*Cell]*Addr, len(s.CellAddr))
@@ -143,6 +145,13 @@ func (X *Exec) heapAtEpoch(name string, srt *Sort, e int) *Term {
 	}
 	X.epochHeaps[k] = t
 	return t
+}
+
+type stableRec struct {
+	Heap  string
+	Sort  *Sort
+	Ref   *Term
+	Alloc *ssa.Alloc // identity across runs (terms are renumbered per run)
 }
 
 type epochMergeRec struct {
@@ -283,6 +292,18 @@ func (X *Exec) merge2(a, b *State) *State {
 	}
 	// defers: must agree (same records); otherwise guard them
 	n.Defers = mergeDefers(ts, a, b)
+	n.Stable = append([]stableRec{}, a.Stable...)
+	for _, sb := range b.Stable {
+		dup := false
+		for _, sa := range a.Stable {
+			if sa.Ref == sb.Ref && sa.Heap == sb.Heap {
+				dup = true
+			}
+		}
+		if !dup {
+			n.Stable = append(n.Stable, sb)
+		}
+	}
 	return n
 }
 
